@@ -27,6 +27,7 @@ import (
 	"strconv"
 	"strings"
 
+	"github.com/xelaj/mtproto/internal/cmd/tlgen/gen"
 	"github.com/xelaj/mtproto/internal/cmd/tlgen/tlparser"
 )
 
@@ -465,6 +466,38 @@ func init() {
 				report("not-reproducible", "two generations differ: "+d)
 			}
 			os.RemoveAll(dirB)
+			// the library way: one parsed schema object handed to two generators of one process - the second generation equals the
+			// first (whether the generator may normalise the object it is handed is not the statement's business: it does)
+			if ps, err := tlparser.ParseSchema(text); err == nil {
+				dirC, dirD := filepath.Join(*work, fmt.Sprintf("x%d_lib1", n)), filepath.Join(*work, fmt.Sprintf("x%d_lib2", n))
+				genLib := func(dir string) string {
+					os.MkdirAll(dir, 0700)
+					var gerr error
+					if p := recoverTo(func() {
+						g, err := gen.NewGenerator(ps, "", dir)
+						if err != nil {
+							gerr = err
+							return
+						}
+						gerr = g.Generate()
+					}); p != nil {
+						return fmt.Sprintf("panic: %v", p)
+					}
+					if gerr != nil {
+						return gerr.Error()
+					}
+					return ""
+				}
+				if msg := genLib(dirC); msg != "" {
+					report("generator-fails", "in-process generation from the parsed schema: "+msg)
+				} else if msg := genLib(dirD); msg != "" {
+					report("generator-fails", "second in-process generation from the same parsed schema: "+msg)
+				} else if d := sameDirs(dirC, dirD); d != "" {
+					report("not-reproducible", "two in-process generations from one parsed schema differ: "+d)
+				}
+				os.RemoveAll(dirC)
+				os.RemoveAll(dirD)
+			}
 			// over the files of the previous generation (another, often larger, schema)
 			if msg, ok := runGen(name, sf, dirty); !ok {
 				report("generator-fails", "over the output of a previous generation: "+msg)
